@@ -26,7 +26,7 @@ SymDelims == {"~", "!", "@", "#", "$", "%", "^", "&", "*", ";", "/", "|"}
 DelimOpen == PairOpen \cup SymDelims
 Close(c)  == CASE c = "(" -> ")" [] c = "[" -> "]" [] c = "{" -> "}" [] c = "<" -> ">" [] OTHER -> c
 
-Letters     == {"a", "x", "u", "f"}          \* "u", "f" only arise as chopped "up", "f2" (see ChopLast)
+Letters     == {"a", "x"}
 SingleChars == Letters \cup DelimOpen \cup {")", "]", "}", ">", " ", "+", ",", ":"}
 
 (* key names: atom -> canonical event name ("" = unsupported).  return is the documented synonym of enter. *)
@@ -128,49 +128,41 @@ ResolveKey(k) == IF k = <<KCOLON>> THEN ":" ELSE IF k = <<KCOMMA>> THEN "," ELSE
                  ELSE IF Len(k) = 1 THEN KeyCanon(k[1]) ELSE ""
 
 ERR == [err |-> TRUE]
-(* one "+"-separated piece of an action list; spec = its original atoms.  Returns [err] or [err, acts] *)
-(* CODE-DERIVED: a piece is an action with argument iff masking AND key-escaping change it (so an unterminated   *)
-(* `execute{a::b` or `put+:` counts, too) and its leading name is such an action; the argument then is whatever  *)
-(* lies between the character after the name and the last character                                             *)
+(* one "+"-separated piece of an action list; spec = its original atoms, m = the same piece of the masked string  *)
+(* (carried = a `name:rest` piece was prepended, see ActionsFrom).  Returns [err] or [err, acts]                   *)
+(* CODE-DERIVED: a piece is taken for an action with argument iff masking or key-escaping changes it and its       *)
+(* leading name is such an action.  `name:rest` takes the rest; otherwise the argument is accepted only if the     *)
+(* scanner masked the piece from the opening character to its very end, i.e. the piece ends with the closing       *)
+(* delimiter (since fix 6946a78; malformed pieces the escapes let through - `put+:`, `execute{a::b`,              *)
+(* `change-multi,:toggle-preview`, `execute-silent[x],:down` - are errors, no longer accepted with a chopped arg). *)
 IsExecSpec(spec) == /\ Len(spec) >= 2 /\ spec[1] \in ExecNames /\ ~Letterish(spec[2])
                     /\ Escape(Mask(<<":">> \o spec)) # <<":">> \o spec
-(* CODE-DERIVED: the argument is the piece without name, opening character and LAST CHARACTER - whatever that is. *)
-(* For the documented forms the last character is the closing delimiter; on malformed pieces that the escapes    *)
-(* let through (`change-multi,:toggle-preview`) it is the last character of the last atom.                       *)
-ChopLast(a) == CASE a = "ctrl-a" -> "ctrl-" [] a = "enter" -> "ente" [] a = "return" -> "retur" [] a = "f2" -> "f"
-                 [] a = "alt-x" -> "alt-" [] a = "space" -> "spac" [] a = "load" -> "loa" [] a = "change" -> "chang"
-                 [] a = "tab" -> "ta" [] a = "up" -> "u" [] a = "down" -> "dow" [] a = "accept" -> "accep"
-                 [] a = "abort" -> "abor" [] a = "select-all" -> "select-al" [] a = "toggle-down" -> "toggle-dow"
-                 [] a = "preview-up" -> "preview-u" [] a = "print-query" -> "print-quer"
-                 [] a = "toggle-preview" -> "toggle-previe" [] a = "change-multi" -> "change-mult" [] a = "put" -> "pu"
-                 [] a = "bogus" -> "bogu" [] a = "execute" -> "execut" [] a = "execute-silent" -> "execute-silen"
-                 [] a = "reload" -> "reloa" [] a = "change-prompt" -> "change-promp"
-                 [] a = "transform-query" -> "transform-quer" [] a = "unbind" -> "unbin"
-                 [] OTHER -> ""                                                      \* single characters
-ArgAtoms(spec) == IF spec[2] = ":" THEN SubSeq(spec, 3, Len(spec))
-                  ELSE SubSeq(spec, 3, Len(spec) - 1)
-                       \o (IF Len(spec) >= 3 /\ ChopLast(spec[Len(spec)]) # "" THEN <<ChopLast(spec[Len(spec)])>> ELSE <<>>)
-OneAction(spec, first, prev, putOK) ==
+Closed(spec, m, carried) == ~carried /\ Len(m) = Len(spec) /\ \A x \in 2..Len(m) : m[x] \in {MASK, " "}
+OneAction(spec, m, carried, first, prev, putOK) ==
     IF spec = <<>> THEN (IF first THEN [err |-> FALSE, acts |-> prev] ELSE ERR)       \* leading "+": append
     ELSE IF Len(spec) = 1 /\ spec[1] \in PlainNames
          THEN IF spec[1] = "put" /\ ~putOK THEN ERR
               ELSE [err |-> FALSE, acts |-> [n \in 1..Len(PlainTypes(spec[1])) |-> Act(PlainTypes(spec[1])[n], "")]]
     ELSE IF IsExecSpec(spec)
-         THEN LET arg == ArgAtoms(spec) IN
-              IF spec[1] \in KeyListArg /\ ~KeyList(arg).ok THEN ERR
-              ELSE [err |-> FALSE, acts |-> <<Act(spec[1], Str(arg))>>]
+         THEN IF spec[2] # ":" /\ ~Closed(spec, m, carried) THEN ERR                   \* unable to parse action argument
+              ELSE LET arg == IF spec[2] = ":" THEN SubSeq(spec, 3, Len(spec)) ELSE SubSeq(spec, 3, Len(spec) - 1) IN
+                   IF spec[1] \in KeyListArg /\ ~KeyList(arg).ok THEN ERR
+                   ELSE [err |-> FALSE, acts |-> <<Act(spec[1], Str(arg))>>]
     ELSE ERR                                                                           \* unknown action
-RECURSIVE ActionsFrom(_, _, _, _, _, _, _)
-(* CODE-DERIVED: a `name:rest` piece that is not the last one (possible only after an unterminated argument stopped *)
-(* the masking) swallows the following pieces: it is carried over, "+" re-inserted                                  *)
-ActionsFrom(ranges, orig, n, prev, putOK, acc, carry) ==
+RECURSIVE ActionsFrom(_, _, _, _, _, _, _, _)
+(* CODE-DERIVED: a `name:rest` piece that is not the last one would swallow the following pieces (carried over, "+"  *)
+(* re-inserted).  It needs an unterminated argument before it to stop the masking, and that piece is an error       *)
+(* itself, so this is not reachable through --bind any more; kept because the implementation keeps it.              *)
+ActionsFrom(ranges, masked, orig, n, prev, putOK, acc, carry) ==
     IF n > Len(ranges) THEN [err |-> FALSE, acts |-> acc]
-    ELSE LET spec == carry \o SubSeq(orig, ranges[n][1], ranges[n][2]) IN
+    ELSE LET spec == carry \o SubSeq(orig, ranges[n][1], ranges[n][2])
+             m == SubSeq(masked, ranges[n][1], ranges[n][2]) IN
          IF n < Len(ranges) /\ IsExecSpec(spec) /\ spec[2] = ":"
-         THEN ActionsFrom(ranges, orig, n + 1, prev, putOK, acc, spec \o <<"+">>)
-         ELSE LET r == OneAction(spec, n = 1, prev, putOK) IN
-              IF r.err THEN ERR ELSE ActionsFrom(ranges, orig, n + 1, prev, putOK, acc \o r.acts, <<>>)
-ParseActions(masked, orig, prev, putOK) == ActionsFrom(SplitIdx(masked, "+", 1, 1), orig, 1, prev, putOK, <<>>, <<>>)
+         THEN ActionsFrom(ranges, masked, orig, n + 1, prev, putOK, acc, spec \o <<"+">>)
+         ELSE LET r == OneAction(spec, m, carry # <<>>, n = 1, prev, putOK) IN
+              IF r.err THEN ERR ELSE ActionsFrom(ranges, masked, orig, n + 1, prev, putOK, acc \o r.acts, <<>>)
+ParseActions(masked, orig, prev, putOK) ==
+    ActionsFrom(SplitIdx(masked, "+", 1, 1), masked, orig, 1, prev, putOK, <<>>, <<>>)
 
 Bound(km, key) == IF key \in DOMAIN km THEN km[key] ELSE <<>>
 Bind(km, key, acts) == [k \in DOMAIN km \cup {key} |-> IF k = key THEN acts ELSE km[k]]
